@@ -25,7 +25,9 @@
 // compared event by event.
 //
 // Enabledness of a pending operation:
-//   lock(m)            m is free
+//   lock(m)            m is free (a thread locking a mutex it already owns is never enabled: the
+//                      self-deadlock of a non-recursive mutex becomes a detected stuck state, flagged
+//                      `self_owner` in the report, instead of undefined behaviour)
 //   wake(cv,m)         (the thread was notified, or a spurious wake-up is taken) and m is free
 //   join(t)            t has finished
 //   load(a) [spinning] only for atomics the harness declared with spin_var(): the value of a
@@ -81,6 +83,7 @@ struct Blocked {          // one entry per unfinished thread of a stuck run
     const void* obj;
     int target;
     bool notified;        // Wake: thread is no longer in the wait set
+    bool self_owner;      // Lock: the thread tries to lock a (non-recursive) mutex it already owns
 };
 
 class Sched {
@@ -321,7 +324,8 @@ inline End Sched::run(::std::function<void()> main_fn) {
             ::std::vector<Blocked> b;
             for (auto& t : th_) {
                 if (t->finished) continue;
-                Blocked x{t->id, t->pend.op, t->pend.obj, t->pend.target, false};
+                Blocked x{t->id, t->pend.op, t->pend.obj, t->pend.target, false, false};
+                if (t->pend.op == Op::Lock) x.self_owner = (t->pend.mtx->owner == t->id);
                 if (t->pend.op == Op::Wake) {
                     bool in_set = false;
                     for (int w : t->pend.cv->waiters) if (w == t->id) in_set = true;
